@@ -335,6 +335,18 @@ fn eval_inner(c: &Case, obs: &mut Obs) -> Verdict {
                     vensure!(!strings_ok, "request_connection refused although every string fits AMF0: {:?}", e);
                     refused = true;
                     obs.class("client-string-too-long-refused-at-connect");
+                    // a refused request must leave nothing behind: an answer to the transaction id
+                    // it would have used is an answer to an unknown transaction
+                    let mut peer = PeerEnc::new();
+                    let result = peer.send(&command("_result", 1.0, obj(vec![("fmsVer", st("FMS/3,0,1,123"))]), vec![obj(vec![("code", st("NetConnection.Connect.Success"))])]), 0, 0);
+                    match cs.handle_input(&result) {
+                        Ok(r) => {
+                            let evs = split_client(r).events;
+                            vensure!(!evs.iter().any(|e| matches!(e, ClientSessionEvent::ConnectionRequestAccepted)), "request_connection was refused ({:?}), yet a later _result for its transaction id makes the client connected", e);
+                        }
+                        Err(_) => {}
+                    }
+                    vensure!(cs.request_playback("k".to_string()).is_err(), "the client accepts request_playback although its connection request was refused");
                 }
                 Ok(r) => {
                     vensure!(strings_ok, "a connect command carrying a string longer than 65535 bytes was emitted");
